@@ -25,6 +25,33 @@ type history struct {
 	OpenAtEnd int    `json:"idle_connections_open_when_the_session_ends"`
 	N1        int    `json:"n1"`
 	N2        int    `json:"n2"`
+	// Refused: after every batch of working connections as many requests that the server has to refuse:
+	// "unknown-channel" (a channel the server does not offer), "dead-target" (a channel whose target refuses)
+	Refused string `json:"refused_requests"`
+}
+
+// refusedConn asks for something the server must refuse; the application connection has to end without data.
+func refusedConn(p *vlib.Pair, h history) string {
+	name := "nochan"
+	if h.Refused == "dead-target" {
+		name = "dead"
+	}
+	c, err := p.Dial(name)
+	if err != nil {
+		return "dial listener of the refused channel: " + err.Error()
+	}
+	defer c.Close()
+	c.SetDeadline(time.Now().Add(20 * time.Second))
+	c.Write([]byte("hello?"))
+	buf := make([]byte, 16)
+	n, rerr := c.Read(buf)
+	if n > 0 {
+		return fmt.Sprintf("a refused request (%s) returned %d bytes", h.Refused, n)
+	}
+	if ne, ok := rerr.(net.Error); ok && ne.Timeout() {
+		return fmt.Sprintf("a refused request (%s) is never answered: the application connection stays open for 20s", h.Refused)
+	}
+	return ""
 }
 
 // runConns opens n logical connections (overlap at a time), exchanges payload bytes each way and closes them in
@@ -45,6 +72,9 @@ func runConns(p *vlib.Pair, tgt *vlib.Target, h history, n int) string {
 			go func(i int) {
 				defer wg.Done()
 				errs[i] = oneConn(p, h)
+				if errs[i] == "" && h.Refused != "" {
+					errs[i] = refusedConn(p, h)
+				}
 			}(i)
 		}
 		wg.Wait()
@@ -153,6 +183,7 @@ func TestReclaim(t *testing.T) {
 		}
 		h.Ending = endings[rapid.IntRange(0, len(endings)-1).Draw(rt, "ending")]
 		h.OpenAtEnd = []int{0, 0, 1, 3, 6}[rapid.IntRange(0, 4).Draw(rt, "openAtEnd")]
+		h.Refused = []string{"", "", "unknown-channel", "dead-target"}[rapid.IntRange(0, 3).Draw(rt, "refused")]
 		viaRelay := h.Carrier != vlib.CarStdio
 		if !viaRelay && (h.Ending == "cut-rst" || h.Ending == "cut-fin" || h.Ending == "garbage" || h.Ending == "silent") {
 			h.Ending = "server-shutdown"
@@ -183,6 +214,16 @@ func TestReclaim(t *testing.T) {
 		cfg := vlib.PairConfig{Carrier: h.Carrier, ClientInsecure: true, ViaRelay: viaRelay,
 			Channels:  []vlib.ChannelSpec{{Name: "data", Target: tgt.URL()}},
 			Listeners: []vlib.ListenerSpec{{Channel: "data"}}}
+		var deadPort net.Listener
+		if h.Refused != "" {
+			// "nochan": a listener for a channel the server does not have; "dead": a channel whose target port is
+			// bound but not listening any more (connection refused)
+			deadPort, _ = net.Listen("tcp", "127.0.0.1:0")
+			dead := deadPort.Addr().String()
+			deadPort.Close()
+			cfg.Channels = append(cfg.Channels, vlib.ChannelSpec{Name: "dead", Target: "tcp://" + dead})
+			cfg.Listeners = append(cfg.Listeners, vlib.ListenerSpec{Channel: "nochan"}, vlib.ListenerSpec{Channel: "dead"})
+		}
 		if h.StartTLS || h.Carrier == vlib.CarTCPTLS {
 			cfg.ServerCert = &vlib.GetPKI().ServerGood
 		}
@@ -320,8 +361,8 @@ func TestReclaim(t *testing.T) {
 				fail(fmt.Sprintf("after shutting both ends down the footprint %v stays above %v (before the pair existed)", end, before), meas)
 			}
 		}
-		nontrivial := h.Closer != "app" || h.Ending != "none"
-		labels := []string{"carrier:" + h.Carrier, "closer:" + h.Closer, "ending:" + h.Ending, fmt.Sprintf("overlap:%d", h.Overlap), fmt.Sprintf("open-at-end:%d", h.OpenAtEnd)}
+		nontrivial := h.Closer != "app" || h.Ending != "none" || h.Refused != ""
+		labels := []string{"refused:" + h.Refused, "carrier:" + h.Carrier, "closer:" + h.Closer, "ending:" + h.Ending, fmt.Sprintf("overlap:%d", h.Overlap), fmt.Sprintf("open-at-end:%d", h.OpenAtEnd)}
 		if h.StartTLS {
 			labels = append(labels, "starttls")
 		}
